@@ -221,7 +221,9 @@ def build(cfg, sel):
     return setup, desc, cpar
 
 
-INTERNAL_ERRORS = (TypeError, IndexError, AttributeError, KeyError, NameError, UnboundLocalError, ZeroDivisionError)
+# ZeroDivisionError is not in this list: a relative residual type divides by |u[0]|, which is zero for later steps of a
+# block under initial_guess='zero' (an undefined quantity, not a wrong answer); counted as numerical failure
+INTERNAL_ERRORS = (TypeError, IndexError, AttributeError, KeyError, NameError, UnboundLocalError)
 
 
 def run_case(arg):
@@ -265,7 +267,7 @@ def run_case(arg):
         res['outcome'] = 'violation'
         res['viol'].append(({'kind': 'run_raised', 'error': type(e).__name__}, {'msg': str(e)[:200]}))
         return res
-    except (FloatingPointError, ValueError, np.linalg.LinAlgError, RuntimeError) as e:
+    except (FloatingPointError, ValueError, np.linalg.LinAlgError, RuntimeError, ZeroDivisionError) as e:
         mlenv.stop_recording()
         res['outcome'] = 'run_numerical_failure'
         res['info'] = {'error': type(e).__name__, 'msg': str(e)[:120]}
@@ -397,7 +399,7 @@ def run(rep, tier):
         'premise "iterated to its residual tolerance" is re-checked per step with the oracle\'s own full collocation defect of the node values seen at post_step; steps failing it are counted, not judged (wrong reported residuals are C03\'s subject)',
         'qmat (third party, outside /repo) supplies preconditioner matrices for the contraction estimate that chooses dt; the estimate never enters a verdict',
         'mi:split uses a two-component linear test problem defined in vf/env/mlenv.py (environment) because pySDC ships no linear problem for the multi_implicit sweeper',
-        'pySDC error classes raised at construction / run are rejections (counted); TypeError, IndexError, AttributeError, KeyError, ZeroDivisionError out of run() are reported',
+        'pySDC error classes raised at construction / run are rejections (counted); TypeError, IndexError, AttributeError, KeyError out of run() are reported; ZeroDivisionError (relative residual with a zero initial value) is counted as numerical failure',
     ]
     cases = {}
     ball_sizes = {}
